@@ -408,6 +408,9 @@ package datamodel
 // ---- C20: paths, path segments and kinds are values; nothing shared is written (frame sweep) ----
 //@ sweep[C20] assigns nothing: Path, PathSegment, Kind, KindSet, NewPath(), NewPathNocopy(), ParsePath(),
 //@   ParsePathSegment(), PathSegmentOfString(), PathSegmentOfInt()
+// The two singleton nodes (Null, Absent) and their prototypes: every read answers from constants
+// or a fresh error value.
+//@ sweep[C20] assigns nothing: nullNode, absentNode, nullPrototype, absentPrototype
 
 // ---- C01: deep equality agrees with equality of the abstract values ----
 // veq: equality of abstract values, defined by one level of unfolding per kind (maps: same length
